@@ -402,3 +402,8 @@ func TestVerifC17Fingerprint(t *testing.T) {
 func TestVerifC17Race(t *testing.T) {
 	vs.Run(t, "C17", func(c *vs.Case) error { return vw.PropC17Race(c, compositeFactory, "composite") })
 }
+
+// Deterministic probes of the open known findings (see /verif/known_findings.json).
+func TestVerifKnownProbesC01(t *testing.T) { vs.RunFixed(t, "C01", vw.ProbesC01(compositeFactory)) }
+func TestVerifKnownProbesC02(t *testing.T) { vs.RunFixed(t, "C02", vw.ProbesC02(compositeFactory)) }
+func TestVerifKnownProbesC08(t *testing.T) { vs.RunFixed(t, "C08", vw.ProbesC08(compositeFactory)) }
